@@ -252,4 +252,47 @@ theorem longest_prefix_unique (blobs a b ra rb : List α)
   longest_prefix_unique_aux size max a 0 blobs b ra rb ha hb (by omega) (by omega)
     (by intro r rest' hr; have := na r rest' hr; omega) (by intro r rest' hr; have := nb r rest' hr; omega)
 
+/-! ## two calls in flight on one client (`Calls`) -/
+
+/-- the invariant of two calls in flight on one client: a call holds the batch the size filter made of *its own*
+input, and its request carried that batch -/
+def CallsOwn {α} (size : α → Nat) (max : Nat) (inA inB : List α) (s : Calls α) : Prop :=
+  (∀ f, s.batchA = some f → f = filterBlobs size max inA) ∧ (∀ f, s.batchB = some f → f = filterBlobs size max inB) ∧
+  (∀ l, s.wireA = some l → filterBlobs size max inA = .send l) ∧ (∀ l, s.wireB = some l → filterBlobs size max inB = .send l)
+
+theorem batch_some {α} (f : FilterOutcome α) (l : List α) (h : f.batch = some l) : f = .send l := by
+  cases f <;> simp [FilterOutcome.batch] at h
+  subst h; rfl
+
+theorem callsOwn_step {α} (size : α → Nat) (max : Nat) (inA inB : List α) (s : Calls α) (e : Phase)
+    (hs : CallsOwn size max inA inB s) : CallsOwn size max inA inB (s.step size max inA inB e) := by
+  obtain ⟨h1, h2, h3, h4⟩ := hs
+  cases e with
+  | pack c =>
+    cases c
+    · exact ⟨fun f hf => by simp [Calls.step] at hf; exact hf.symm, h2, h3, h4⟩
+    · exact ⟨h1, fun f hf => by simp [Calls.step] at hf; exact hf.symm, h3, h4⟩
+  | send c =>
+    cases c
+    · refine ⟨h1, h2, fun l hl => ?_, h4⟩
+      simp only [Calls.step] at hl
+      cases hb : s.batchA with
+      | none => simp [hb] at hl
+      | some f =>
+        simp [hb] at hl
+        rw [← h1 f hb]; exact batch_some f l hl
+    · refine ⟨h1, h2, h3, fun l hl => ?_⟩
+      simp only [Calls.step] at hl
+      cases hb : s.batchB with
+      | none => simp [hb] at hl
+      | some f =>
+        simp [hb] at hl
+        rw [← h2 f hb]; exact batch_some f l hl
+
+theorem callsOwn_foldl {α} (size : α → Nat) (max : Nat) (inA inB : List α) (sched : List Phase) :
+    ∀ s, CallsOwn size max inA inB s → CallsOwn size max inA inB (sched.foldl (Calls.step size max inA inB) s) := by
+  induction sched with
+  | nil => intro s hs; exact hs
+  | cons e rest ih => intro s hs; exact ih _ (callsOwn_step size max inA inB s e hs)
+
 end Proofs.C16
